@@ -42,8 +42,16 @@ class Ctx:
     def arr(self, a):
         return D.exact_arr(a, self.scale) if self.mode == "exact" else D.quant_arr(a, self.grid)
 
+    def out_arr(self, a):
+        return D.out_exact_arr(a, self.scale) if self.mode == "exact" else D.out_quant_arr(a, self.grid)
+
     def table(self, g):
-        return {"k": [int(b) for b in g.are_values_known()], "lo": self.arr(g.get_lower_bounds()), "up": self.arr(g.get_upper_bounds())}
+        k = [int(b) for b in g.are_values_known()]
+        try:
+            return {"k": k, "lo": self.out_arr(g.get_lower_bounds()), "up": self.out_arr(g.get_upper_bounds()), "bad": 0}
+        except D.OutputError:
+            z = [0] * len(k)
+            return {"k": k, "lo": z, "up": z, "bad": 1}
 
 
 NOGAP = {"has": 0, "pure": 1, "en": [0, 0], "l1": [0, 0], "linf": [0, 0], "l2": [0, 0]}
@@ -116,7 +124,8 @@ def run_trace(tid, n, cls, mode, hidden_f, objs, rng, length, with_gaps, ops_wei
         out = []
         for j, g in enumerate(games):
             t = ctx.table(g)
-            t.update({"idem": -1, "fresh": -1, "bits1": -1, "g": NOGAP, "exc": excs[j]})
+            t.update({"idem": -1, "fresh": -1, "bits1": -1, "g": NOGAP, "exc": excs[j] or ("UnloggableOutput" if t.pop("bad") else "")})
+            t.pop("bad", None)
             if extra:
                 t.update(extra[j])
             excs[j] = ""
